@@ -417,7 +417,7 @@ def build_cases(ctx, names, tmpfile):
     # one configuration per catalogue entry (the behavioural comparison runs on configurations)
     for name in names:
         for props in cat.get(name, [obj()]):
-            for flt in (FILTER_SHAPES[0], FILTER_SHAPES[9]):
+            for flt in (FILTER_SHAPES[0], FILTER_SHAPES[3], FILTER_SHAPES[5], FILTER_SHAPES[9]):
                 cases.append(Case("config", obj(rules=[rule_object(name, props, flt, 0)], generator="retain_lines"),
                                   "accept", level="config", rule=name, props=[k for k, _ in props]))
 
@@ -798,11 +798,6 @@ def tree():
     return t
 
 
-def classify_violation(case, what):
-    """key for known_findings: root cause class, not the individual text"""
-    return what
-
-
 def run(ctx):
     C.build_harness("dl-c19")
     proofs_ok = C.proof_gate(ctx)
@@ -1001,14 +996,14 @@ def run(ctx):
 
     ctx.stream("corrupted / undocumented configurations are rejected, documented ones accepted (Rust only)",
                sum(1 for c in cases if c.expect), sum(1 for c in cases if c.expect == "reject"), [],
-               mismatches=sum(1 for k, _, _ in findings if k.startswith(("strict:", "accept:"))))
+               findings=sum(1 for k, _, _ in findings if k.startswith(("strict:", "accept:"))))
     ctx.stream("serialize -> read back (json5 and serde_json) -> serialize is a fixed point (Rust only)",
-               len(accepted), len(accepted), [], mismatches=sum(1 for k, _, _ in findings if k.startswith("roundtrip:") and "behaviour" not in k))
+               len(accepted), len(accepted), [], findings=sum(1 for k, _, _ in findings if k.startswith("roundtrip:") and "behaviour" not in k))
     ctx.stream("process(): configuration vs its round-tripped text on the probe tree; same text => same behaviour (Rust only)",
-               compared * 2, compared, [], mismatches=sum(1 for k, _, _ in findings if "behaviour" in k or k.startswith("injective")),
+               compared * 2, compared, [], findings=sum(1 for k, _, _ in findings if "behaviour" in k or k.startswith("injective")),
                serialized_texts=len(by_ser))
     ctx.stream("inject_global_value: injected Lua value read back == configured JSON value (Rust only)",
-               len(inj_cases), len(inj_cases), [], mismatches=sum(1 for k, _, _ in findings if k.startswith("strict:inject")))
+               len(inj_cases), len(inj_cases), [], findings=sum(1 for k, _, _ in findings if k.startswith("strict:inject")))
 
     ctx.debug = {"findings": findings, "bad": [(cases[i].text, cases[i].res, d) for i, d in bad]}
     reported = set()
@@ -1066,6 +1061,8 @@ def strict_key(c):
         g = dict(v).get("generator")
         if isinstance(g, O) and dict(g).get("name") in ("retain_lines", "retain-lines") and len(g) > 1:
             return "strict:generator:retain_lines:extra-key"
+    if "convert_require" in w and re.search(r"(current|target) = \[", w):
+        return "strict:convert_require:require-mode-from-array"
     m = re.search(r"(misspelt key|duplicate key|wrong kind|extra property|unknown rule name|unknown top-level key|invalid glob|grid)", w)
     return "strict:%s:%s" % (m.group(1).replace(" ", "-") if m else "other", w[-70:].replace(" ", "_"))
 
